@@ -199,6 +199,12 @@ func (w *World) buildOp(op *Op) *BuiltOp {
 			}
 		}
 		setParties(ent)
+		if op.Rule == 9 {
+			// the governance module account raises the order itself (the message executes when a proposal carrying it
+			// passes; only meaningful inside a proposal)
+			gov := w.addrName("gov")
+			b.Signer, b.Named = gov, gov
+		}
 		b.Module = "ent"
 		amt := parseBig(op.Amt)
 		denom := w.denomSel(op.Denom)
@@ -876,6 +882,8 @@ func (w *World) steerEntParams(p *ParamsPatch) {
 			}
 		}
 		if tgt == nil {
+			p.Steer = 1 + len(w.Ent.Orders)%2
+			w.steerEntParams(p)
 			return
 		}
 		n := acc + rej - 1
